@@ -387,7 +387,7 @@ def randsched(seed, depth=3, ncalls=30):
     return Config(f"rs{seed}", [dev], pulses, calls, init, depth)
 
 
-def limits(depth=2, seqs=(36, 52, 136, 140, 156, -1)):
+def limits(depth=2, seqs=(36, 52, 136, 140, 156, -1), virtual=False):
     """Acceptance at / just inside / just outside every limit (C01), with the sequence-duration
     bound hit after automatically inserted delays.  One device per max_sequence_duration."""
     def dev(ms):
@@ -398,6 +398,13 @@ def limits(depth=2, seqs=(36, 52, 136, 140, 156, -1)):
             {"kind": "ram", "addr": "L", "clock": 2, "minDur": 4, "minRet": 0, "fixRet": 0, "maxTg": 2},
         ]}
     devs = [dev(ms) for ms in seqs]
+    if virtual:
+        # every subset of the optional limits of the first channel left undefined
+        devs = []
+        for (ma, md, mx) in ((None, None, None), (None, 50.0, 120), (10.0, None, None), (None, None, 120)):
+            d = dev(-1)
+            d["chs"][0].update({"maxAmp": ma, "maxDet": md, "maxDur": mx})
+            devs.append(d)
     C = Pulse.ConstantPulse
     nanwf = CustomWaveform([1.0] * 8 + [float("nan")] + [1.0] * 7)
     pulses = [
@@ -515,6 +522,41 @@ def phasejump(depth=3):
     return Config("phasejump", devs, pulses, calls, [1, 2], depth)
 
 
+def phases(depth=3, wrap=False):
+    """Phase references: a global and a multi-target local channel on ONE basis plus a channel on
+    another basis; shifts on single atoms and on all, post-phase-shifts, retargeting.
+    wrap=True: unit 2*pi/8 with negative and > 2*pi values on unmodulated channels (where the
+    equal/different-phase decision cannot move the timeline)."""
+    devs = [{"nq": 3, "chs": [
+        {"kind": "ryd", "addr": "G", "clock": 1, "minDur": 1, "bw": None if wrap else 80.0},
+        {"kind": "ryd", "addr": "L", "clock": 1, "minDur": 1, "minRet": 0, "fixRet": 0, "maxTg": 2},
+        {"kind": "ram", "addr": "L", "clock": 4, "minDur": 4, "minRet": 0, "fixRet": 0, "maxTg": 3},
+    ]}]
+    import math
+    u = 2 * math.pi / 8 if wrap else 0.5
+    pulses = [Pulse.ConstantPulse(100, 1.0, 0.0, 0.0, post_phase_shift=(5 if wrap else 1) * u),
+              Pulse.ConstantPulse(20, 1.0, 0.0, (3 if wrap else 1) * u),
+              Pulse.ConstantPulse(8, 1.0, 0.0, (7 if wrap else 2) * u, post_phase_shift=(-3 if wrap else 1) * u)]
+    calls = [{"op": "declare", "nm": 1, "cid": 1, "it": 0}, {"op": "declare", "nm": 2, "cid": 2, "it": 2},
+             {"op": "declare", "nm": 3, "cid": 3, "it": 1}]
+    for nm in (1, 2):
+        for p in (1, 2, 3):
+            for proto in ("min-delay", "no-delay"):
+                calls.append({"op": "add", "nm": nm, "p": p, "proto": proto})
+    calls.append({"op": "add", "nm": 3, "p": 3, "proto": "min-delay"})
+    for (phi, tg, b) in (((11 if wrap else 1), 1, "ground-rydberg"), ((-3 if wrap else 1), 2, "ground-rydberg"),
+                         ((5 if wrap else 2), 0, "ground-rydberg"), ((-3 if wrap else 1), 6, "ground-rydberg"),
+                         ((13 if wrap else 1), 1, "digital")):
+        calls.append({"op": "pshift", "phi": phi, "tg": tg, "basis": b})
+    for tg in (1, 3, 6):
+        calls.append({"op": "target", "nm": 2, "tg": tg})
+    calls.append({"op": "target", "nm": 3, "tg": 7})
+    calls.append({"op": "delay", "nm": 1, "d": 30, "rest": False})
+    calls.append({"op": "align", "nms": [1, 2], "rest": False})
+    return Config("phases", devs, pulses, calls, [1, 2, 3], depth, phase_unit=u,
+                  phase_mod=8 if wrap else 0, ptol=0)
+
+
 def instances(name, tier):
     """The configurations of family `name` for a tier (each with a unique .name tag)."""
     quick = tier != "thorough"
@@ -527,7 +569,9 @@ def instances(name, tier):
         a.name = "limits-d2"
         b = limits(3, seqs=(140, -1) if quick else (36, 52, 136, 140, 156, -1))
         b.name = "limits-d3"
-        return [a, b]
+        v = limits(2, virtual=True)
+        v.name = "limits-virtual-d2"
+        return [a, b, v]
     if name == "retarget":
         c = retarget(3 if quick else 4, full=not quick)
         c.name = f"retarget-d{c.max_depth}"
@@ -541,6 +585,12 @@ def instances(name, tier):
             return [a, b]
         a = fine(4)
         a.name = "fine-d4"
+        return [a, b]
+    if name == "phases":
+        a = phases(3 if quick else 4)
+        a.name = f"phases-exact-d{a.max_depth}"
+        b = phases(3 if quick else 4, wrap=True)
+        b.name = f"phases-wrap-d{b.max_depth}"
         return [a, b]
     if name == "phasejump":
         c = phasejump(3 if quick else 4)
@@ -578,6 +628,14 @@ def instances(name, tier):
 
 def by_tag(tag):
     fam = tag.split("-")[0]
+    if tag.startswith("phases-"):
+        c = phases(int(tag.split("-d")[-1]), wrap="wrap" in tag)
+        c.name = tag
+        return c
+    if tag.startswith("limits-virtual"):
+        c = limits(2, virtual=True)
+        c.name = tag
+        return c
     if tag.startswith("fine-seeded"):
         c = fine(int(tag.split("-d")[-1]), seeded=True)
         c.name = tag
